@@ -141,7 +141,11 @@ DiagAtt ==
     ELSE LET e == Eff(inst, c) IN
          IF e.calls # Ev.calls THEN
              (IF Len(e.calls) # Len(Ev.calls)
-                THEN (IF Len(Ev.calls) > Len(e.calls) THEN "FiresIff.fired-but-should-not" ELSE "FiresIff.not-fired")
+                THEN (IF Len(Ev.calls) > Len(e.calls)
+                        THEN (IF c \notin Graph THEN "OnlyGraphRuns.ran-outside-the-evaluated-graph"
+                              ELSE IF c \in Seeded THEN "SeedsPreserved.recomputed"
+                              ELSE "FiresIff.fired-but-should-not")
+                        ELSE "FiresIff.not-fired")
                 ELSE "ArgBinding")
          ELSE IF ~SameVal(e.v, Ev.v) THEN
              (IF c \in Seeded THEN "SeedsPreserved" ELSE IF e.v.k = "skipresp" \/ Ev.v.k = "skipresp" THEN "MissingExact.rule" ELSE "Isolation.value")
